@@ -45,7 +45,7 @@ EXTERNAL = {"write_simple": ["row_groups", "num_rows"], "write_multi": ["row_gro
             "enumerate": [], "list": [], "bool": [], "sum": []}
 SHARED_INPLACE = {"file_path"}
 INHERITED = {"_base_dtype": ("fmd.row_groups", "origin")}
-PRESERVED_CTX = ["pandas_nulls", "fn", "open"]
+PRESERVED_CTX = ["pandas_nulls", "fn", "open", "_given_dtypes"]
 PRESERVED_FMD = ["schema", "key_value_metadata", "created_by", "version"]
 PLUMBING = {"__init__", "__getstate__", "__setstate__", "_parse_header", "__getitem__"}
 LIST_MUTATORS = {"append", "extend", "insert", "remove", "pop", "sort", "clear", "reverse"}
@@ -632,6 +632,13 @@ def _state_dict(an, node):
             mapping[key] = ("self", steps[0][1])
         elif isinstance(v, ast.Constant) and v.value is None:
             mapping[key] = ("none",)
+        elif isinstance(v, ast.Call) and getattr(v.func, "id", None) == "getattr" and len(v.args) == 3 and isinstance(v.args[0], ast.Name) \
+                and v.args[0].id == "self" and isinstance(_const(v.args[1]), str) and _const(v.args[2]) is None:
+            mapping[key] = ("self", _const(v.args[1]))          # getattr(self, "x", None): the handle's own x (None when never set)
+        elif isinstance(v, ast.Call) and isinstance(v.func, ast.Attribute) and v.func.attr == "copy" and len(v.args) == 1 \
+                and isinstance(v.args[0], ast.Attribute) and isinstance(v.args[0].value, ast.Name) and v.args[0].value.id == "self" \
+                and v.args[0].attr == "fmd":
+            mapping[key] = ("fmd", "copy")                      # copy.copy(self.fmd)
         elif isinstance(v, ast.Name) and an.alias.get(v.id):
             mapping[key] = ("fmd", an.alias[v.id])
         else:
@@ -851,12 +858,16 @@ def analyse(repo):
     if len(rets) != 1:
         raise TranslatorError("__getstate__: expected one return")
     mapping, allf = _state_dict(gs, rets[0])
-    if mapping.get("fmd") != ("self", "fmd"):
-        raise TranslatorError("__getstate__: state['fmd'] is not self.fmd")
+    if mapping.get("fmd") not in (("self", "fmd"), ("fmd", "copy")):
+        raise TranslatorError("__getstate__: state['fmd'] is neither self.fmd nor a copy of it")
+    shares_fmd = mapping.get("fmd") == ("self", "fmd")
     if any(not nrm for _, _, nrm in gs.info.fmd_writes):
         raise TranslatorError("__getstate__ writes the metadata object: %r" % gs.info.fmd_writes)
     for kind in ("pickle", "copy", "deepcopy"):
-        derivation(kind, gs, mapping, allf, kind, set())
+        # copy.copy(pf) hands state["fmd"] on as it is: when that is the parent's own object, an edit through either handle
+        # later writes the other's metadata behind its back - recorded as the derivation not preserving the fmd fields
+        shared = {"fmd." + f_ for f_ in PRESERVED_FMD} | {"fmd.shared_object"} if (kind == "copy" and shares_fmd) else set()
+        derivation(kind, gs, mapping, allf, kind, shared)
 
     # ---- mutators
     def writes_of(name, seen=()):
